@@ -113,6 +113,7 @@ def load(R):
                loops={1: ["len(result) == loop_i",
                           "forall(int, lambda j: implies(0 <= j and j < loop_i, same(result[j], "
                           "self.cache[FKEY(fns[j].fn_reference, fns[j].arg_hash)].memento if FKEY(fns[j].fn_reference, fns[j].arg_hash) in self.cache else None)))"]},
+               labels={"local_types": {"result": TList(TObj("Memento"))}},
                modifies=[])
 
     R.contract(SB + "read_result", prop="C06", types={"self": MC, "memento": M}, returns=TObj(),
